@@ -526,6 +526,19 @@ func (db *MultiBucketBackend) deleteObjectLocked(bucketName, objectName string) 
 		return err
 	}
 
+	// Remove the directories the deleted key leaves empty, up to (but not
+	// including) the bucket's own directory; otherwise they keep showing up as
+	// common prefixes and keep the bucket from being deleted.
+	for dir := path.Dir(fullPath); strings.HasPrefix(dir, bucketName+"/"); dir = path.Dir(dir) {
+		entries, err := afero.ReadDir(db.bucketFs, filepath.FromSlash(dir))
+		if err != nil || len(entries) > 0 {
+			break
+		}
+		if err := db.bucketFs.Remove(filepath.FromSlash(dir)); err != nil {
+			break
+		}
+	}
+
 	return nil
 }
 
